@@ -131,6 +131,23 @@ func RunC08(d *Driver) *Report {
 	if err == nil {
 		defer os.RemoveAll(dir)
 		nproc := 8
+		// the seed flag: every seed value must make the random builtins reproducible
+		randProg := filepath.Join(dir, "rand.evy")
+		os.WriteFile(randProg, []byte("for range 6\n    print (rand 1000) (rand1)\nend\n"), 0o644) //nolint
+		for _, seed := range []string{"1", "7", "-1", "-5", "9223372036854775807", "-9223372036854775808", "2147483648"} {
+			var first string
+			for k := 0; k < 3; k++ {
+				pr := runProc(20*time.Second, "", bin, "run", "--rand-seed="+seed, randProg)
+				obs := fmt.Sprintf("exit=%d\nstdout:\n%s\nstderr:\n%s", pr.Exit, pr.Stdout, pr.Stderr)
+				r.Count(fmt.Sprintf("seed:%s:%d", seed, k), true)
+				if k == 0 {
+					first = obs
+				} else if obs != first {
+					r.Violation(Case{Stream: "fresh-process-seed", Input: "evy run --rand-seed=" + seed + " on: for i := range 6 / print (rand 1000) (rand1) / end", Real: trunc(obs, 600), Spec: "identical to the first process: " + trunc(first, 600)})
+					break
+				}
+			}
+		}
 		for i, src := range c08Programs() {
 			path := filepath.Join(dir, fmt.Sprintf("p%d.evy", i))
 			os.WriteFile(path, []byte(src), 0o644) //nolint
